@@ -60,6 +60,16 @@ def Line.balance (l : Line) : LineResult :=
     engineStatus := l.engines.map fun e => e.status && (engOut f e != 0),
     ptiOut := l.ptiOut, frac := f }
 
+/-- The line as the *repeated* shaft balance of a hybrid system sees it (`HybridPropulsionSystem`, after the
+repeated electric balance changed the PTI/PTO's power): the status series that were given (after D28). -/
+def Line.again (l : Line) (pti' : Option Pti) : Line := { l with pti := pti' }
+
+/-- … and as found (D28): the engines carry the status the first balance wrote back, so an engine that
+was idle in the first balance is off in the repeated one. -/
+def Line.againLegacy (l : Line) (pti' : Option Pti) : Line :=
+  { l with engines := List.zipWith (fun e s => { e with status := s }) l.engines l.balance.engineStatus,
+           pti := pti' }
+
 /-- `MechanicalPropulsionSystem.do_power_balance`: every shaft line on its own. -/
 def balance (lines : List Line) : List LineResult := lines.map Line.balance
 
